@@ -400,7 +400,9 @@ pub fn check_c14(gs: &GraphSpec, st: &mut Stats, out: &mut Vec<Violation>) {
 fn c14_failure_positions(g: &mut FnGraph<TFn>, built: &Built, order: &[usize], st: &mut Stats) -> Option<Violation> {
     let n = built.n;
     let mut out: Vec<Violation> = Vec::new();
-    for k in 0..n {
+    // every position for ordinary graphs; for huge ones the first dozen, every (n/24)-th and the last
+    let ks: Vec<usize> = if n <= 600 { (0..n).collect() } else { (0..n).filter(|&k| k < 12 || k % (n / 24) == 0 || k + 1 == n).collect() };
+    for k in ks {
         let mut seen = Vec::new();
         let r = g.try_fold(0usize, |acc, f| {
             seen.push(f.idx);
@@ -777,6 +779,66 @@ pub fn check_c17(gs: &GraphSpec, st: &mut Stats, out: &mut Vec<Violation>) {
     st.add("edges_round_tripped", edges.len() as u64);
     if edges.iter().any(|e| e.2 == BK::Data) {
         st.count("graphs_with_data_edges");
+    }
+    // GraphInfo is a value type of its own (`GraphInfo::new`, public `graph` field): values that
+    // were NOT derived from an FnGraph must round-trip too - parallel edges between one pair of
+    // nodes, edges of any kind anywhere, node values that need quoting in YAML / JSON.
+    let r = catch_unwind(AssertUnwindSafe(|| -> Option<String> {
+        use fn_graph::daggy::Dag;
+        use fn_graph::{Edge, FnIdInner};
+        let mut rng = Rng::new(hash_of(gs) ^ 0xC17);
+        let names = ["plain", "with space", "colon: here", "quote\"d", "- dash", "#hash", "", "multi\nline", "true", "007", "{brace}", "ünïcode"];
+        let mut dag: Dag<String, Edge, FnIdInner> = Dag::new();
+        let k = n.min(12).max(if rng.chance(1, 4) { 0 } else { 1 });
+        let ids: Vec<_> = (0..k).map(|i| dag.add_node(format!("{}{}", names[(i + rng.below(12)) % 12], if rng.chance(1, 2) { String::new() } else { i.to_string() }))).collect();
+        let mut added = 0usize;
+        if k >= 2 {
+            for _ in 0..rng.below(2 * k + 1) {
+                let a = rng.below(k - 1);
+                let b = rng.range(a + 1, k - 1);
+                let kind = *rng.pick(&[Edge::Logic, Edge::Contains, Edge::Data]);
+                // add_edge (not update_edge): a repeated pair gives a parallel edge
+                if dag.add_edge(ids[a], ids[b], kind).is_ok() {
+                    added += 1;
+                    if rng.chance(1, 3) && dag.add_edge(ids[a], ids[b], *rng.pick(&[Edge::Logic, Edge::Contains, Edge::Data])).is_ok() {
+                        added += 1;
+                    }
+                }
+            }
+        }
+        let gi = GraphInfo::new(dag);
+        let content = |x: &GraphInfo<String>| -> (Vec<String>, Vec<(usize, usize, BK)>) {
+            (x.graph.raw_nodes().iter().map(|n| n.weight.clone()).collect(), x.graph.raw_edges().iter().map(|e| (e.source().index(), e.target().index(), tfn::bk(e.weight))).collect())
+        };
+        let want = content(&gi);
+        if want.1.len() != added {
+            return Some(format!("harness: built {} edges, GraphInfo holds {}", added, want.1.len()));
+        }
+        let yaml = match serde_yaml_ng::to_string(&gi) {
+            Ok(y) => y,
+            Err(e) => return Some(format!("hand-built GraphInfo does not serialise to YAML: {e}")),
+        };
+        let json = match serde_json::to_string(&gi) {
+            Ok(y) => y,
+            Err(e) => return Some(format!("hand-built GraphInfo does not serialise to JSON: {e}")),
+        };
+        for (what, back) in [("yaml", serde_yaml_ng::from_str::<GraphInfo<String>>(&yaml).map_err(|e| e.to_string())), ("json", serde_json::from_str::<GraphInfo<String>>(&json).map_err(|e| e.to_string()))] {
+            match back {
+                Err(e) => return Some(format!("hand-built GraphInfo ({} nodes, {} edges) does not deserialise from its own {what}: {e}; text {:?}", want.0.len(), want.1.len(), if what == "yaml" { &yaml } else { &json })),
+                Ok(b) => {
+                    if b != gi || content(&b) != want {
+                        return Some(format!("hand-built GraphInfo changed in a {what} round trip: nodes {:?} edges {:?} came back as nodes {:?} edges {:?}", want.0, want.1, content(&b).0, content(&b).1));
+                    }
+                }
+            }
+        }
+        None
+    }));
+    match r {
+        Err(p) => out.push(v("C17", "graph-info-panicked", format!("hand-built GraphInfo: {}", panic_msg(p)))),
+        Ok(Some(m)) if m.starts_with("harness:") => st.inconclusive.push(m),
+        Ok(Some(m)) => out.push(v("C17", "round-trip-hand-built", m)),
+        Ok(None) => st.count("hand_built_graph_infos_round_tripped"),
     }
 }
 
@@ -1384,6 +1446,45 @@ pub fn run(opts: &Opts) -> Option<(Stats, Vec<String>, String)> {
             p.types = 2;
             p.max_access = 1;
             st.count("graphs_with_hundreds_of_functions");
+        }
+        let huge_per_run: u64 = if prop == "C12" { if q { 1 } else { 3 } } else if q { 2 } else { 6 };
+        if cases >= 64 && i % (cases / huge_per_run).max(1) == 57 % (cases / huge_per_run).max(1) {
+            // beyond the next powers of two (4096; thorough also 8192): buffers, batches and search
+            // cut-offs sized by a round constant. build() is cubic in the number of conflicting
+            // functions, so only a handful of functions declare accesses.
+            fam = [Family::FanOut, Family::Isolated, Family::FanIn, Family::Chain][((i / (cases / huge_per_run).max(1)) % 4) as usize];
+            n = if q || rng.chance(1, 2) { rng.range(4100, 4600) } else { rng.range(8200, 8800) };
+            p.hostile_calls = false;
+            p.types = 0;
+            let mut gs = gen::random_graph_of(&mut rng, fam, n, &p);
+            let ends: Vec<usize> = match (gs.calls.first(), gs.calls.last()) {
+                (Some(a), Some(b)) => vec![a.0 as usize, a.1 as usize, b.0 as usize, b.1 as usize],
+                _ => vec![0, gs.n - 1],
+            };
+            // every other time ONLY the endpoints of the last declared edge conflict (no other
+            // data edge can make one of them reachable by a detour)
+            let only_last = (fam == Family::FanOut || rng.chance(1, 3)) && !gs.calls.is_empty();
+            if only_last {
+                gs.writes[ends[2]] |= 1;
+                gs.writes[ends[3]] |= 1;
+            }
+            for k in 0..(if only_last { 0 } else { 10 }) {
+                // the endpoints of the first and of the last declared edge among them, so that
+                // conflicts span the whole declaration order
+                let f = if k < ends.len() { ends[k] } else { rng.below(gs.n) };
+                if rng.chance(2, 3) {
+                    gs.writes[f] |= 1;
+                } else {
+                    gs.reads[f] |= 1;
+                }
+            }
+            st.count("huge_graphs");
+            st.max("max_functions", gs.n as u64);
+            if std::env::var("FGV_HUGE_DEBUG").is_ok() {
+                eprintln!("HUGE-BUILD fam={fam:?} n={} calls={} only_last={only_last} last={:?} w_last=({},{})", gs.n, gs.calls.len(), gs.calls.last(), gs.calls.last().map(|c| gs.writes[c.0 as usize]).unwrap_or(0), gs.calls.last().map(|c| gs.writes[c.1 as usize]).unwrap_or(0));
+            }
+            run_graph_check(prop, check, &gs, st);
+            return;
         }
         if i % 500 == 33 {
             // more distinct data types in one graph than fit in a 64-bit mask
